@@ -83,6 +83,9 @@ func (e *Eng) hashOf(in SliceVal) []*Term {
 	}
 	app := &hashApp{in: in, out: out}
 	for j, prev := range p.hashes {
+		if in.Len.IsConst() && prev.in.Len.IsConst() && in.Len.C != prev.in.Len.C {
+			continue // different lengths: the inputs differ, nothing to state
+		}
 		// out ≠ prev.out ⇒ inputs differ (length, or content at a skolem index)
 		var eqs []*Term
 		for i := 0; i < 32; i++ {
